@@ -1,9 +1,9 @@
 SPECIFICATION Spec
 CONSTANTS
-  E = 8
+  E = 7
   KMin = 1
   KMax = 4
-  TES = {0,1,2,3,4,5,6,7,8,9,10,11,12}
+  TES = {0,1,2,3,4,5,6,7,8,9,10,11}
   TShift = 2
   NTgtMin = 1
   NTgtMax = 1
